@@ -115,6 +115,21 @@ func modeJSON(c *Ctx) {
 			if len(und) > 0 {
 				c.Viol("schema-nonconformant", "encoded JSON carries a property the schema does not declare ["+ts.Name+"]", in, "declared names only", map[string]any{"json": string(bs), "keys": und})
 			}
+			// retained output must not be overwritten by a later encoding of the same type
+			if i%6 == 0 {
+				if m, ok := v.Interface().(json.Marshaler); ok {
+					first, err1 := m.MarshalJSON()
+					keep := append([]byte{}, first...)
+					other := g.Value(ts.Type, s, 0)
+					if m2, ok := other.Interface().(json.Marshaler); ok && err1 == nil {
+						_, _ = m2.MarshalJSON()
+						_, _ = m2.MarshalJSON()
+						if string(first) != string(keep) {
+							c.Viol("output-aliased", "bytes returned by MarshalJSON changed when another value of the same type was encoded ["+ts.Name+"]", in, string(keep), string(first))
+						}
+					}
+				}
+			}
 			if i == 0 {
 				c.Sample(map[string]any{"type": ts.Name, "value": trunc(dumpValue(v), 200), "json": trunc(string(bs), 200)})
 			}
